@@ -27,12 +27,23 @@ type c19Case struct {
 	Helpers    []string // per helper: silent ack@pt+ ack@i- ack@i+ nack nack+ack dupnack nackforeign
 	TCP        string   // disabled refused ackown ackwrong stall garbage
 	SendErr    string   `json:",omitempty"` // answer of the transport to the direct ping: "" (sent), "local" (plain error), "remote" (udp write error)
+	HelperVers []uint8  `json:",omitempty"` // per-helper protocol maximum (mixed clusters); overrides HelperPMax
+}
+
+func (c c19Case) verOf(i int) uint8 {
+	if i < len(c.HelperVers) {
+		return c.HelperVers[i]
+	}
+	return c.HelperPMax
 }
 
 func (c c19Case) String() string {
 	se := ""
 	if c.SendErr != "" {
 		se = " ping-send-error=" + c.SendErr
+	}
+	if len(c.HelperVers) > 0 {
+		se += fmt.Sprintf(" helper-versions=%v", c.HelperVers)
 	}
 	return fmt.Sprintf("indirect=%d pmax=%d score=%d direct=%s helpers=%v tcp=%s%s", c.Indirect, c.HelperPMax, c.Score, c.Direct, c.Helpers, c.TCP, se)
 }
@@ -61,8 +72,8 @@ func c19Ref(c c19Case) c19Expect {
 		return c19Expect{true, -1}
 	}
 	expected, received := 0, 0
-	for _, h := range c.Helpers {
-		if c.HelperPMax >= 4 {
+	for i, h := range c.Helpers {
+		if c.verOf(i) >= 4 {
 			expected++
 		}
 		switch h {
@@ -83,9 +94,6 @@ func c19Ref(c c19Case) c19Expect {
 	d := 1
 	if expected > 0 {
 		d = expected - received
-		if c.HelperPMax < 4 {
-			d = expected
-		}
 		if d < 0 {
 			d = 0
 		}
@@ -108,7 +116,7 @@ func c19RunProbe(t *testing.T, c c19Case) (sig, msg string) {
 		o.M.VAliveNode(&ml.VAlive{Incarnation: 1, Node: "x", Addr: ip4(2), Port: 7946, Vsn: []uint8{1, 5, 2, 0, 0, 0}}, nil, false)
 		nh := len(c.Helpers)
 		for i := 0; i < nh; i++ {
-			o.M.VAliveNode(&ml.VAlive{Incarnation: 1, Node: fmt.Sprintf("h%d", i), Addr: ip4(byte(20 + i)), Port: 7946, Vsn: []uint8{1, c.HelperPMax, 2, 0, 0, 0}}, nil, false)
+			o.M.VAliveNode(&ml.VAlive{Incarnation: 1, Node: fmt.Sprintf("h%d", i), Addr: ip4(byte(20 + i)), Port: 7946, Vsn: []uint8{1, c.verOf(i), 2, 0, 0, 0}}, nil, false)
 		}
 		o.M.VApplyAwarenessDelta(c.Score)
 		for o.M.VBroadcasts().NumQueued() > 0 {
@@ -304,6 +312,22 @@ func c19RunProbe(t *testing.T, c c19Case) (sig, msg string) {
 			default:
 				sig, msg = "probe-overran-deadline", c.String()
 				return
+			}
+		}
+		// a nack is requested from exactly the helpers that know what a nack is
+		for _, p := range o.T.TakeSent() {
+			leaves, _ := explode(p.Buf)
+			for _, l := range leaves {
+				var ind ml.VIndirectPingReq
+				if l[0] != ml.VIndirectPingMsg || ml.VDecode(l[1:], &ind) != nil {
+					continue
+				}
+				for i := range c.Helpers {
+					if p.To == fmt.Sprintf("10.0.0.%d:7946", 20+i) && ind.Nack != (c.verOf(i) >= 4) {
+						sig, msg = "nack-requested-from-wrong-helper", fmt.Sprintf("%v: the request to helper %d (protocol max %d) has Nack=%v", c, i, c.verOf(i), ind.Nack)
+						return
+					}
+				}
 			}
 		}
 		s = o.M.VSnapshot()
@@ -632,6 +656,30 @@ func TestC19(t *testing.T) {
 	for _, d := range []string{"none", "own@pt+"} {
 		run(c19Case{Indirect: 3, HelperPMax: 5, Score: 0, Direct: d, Helpers: []string{"nack"}, TCP: "refused"})
 	}
+	// mixed clusters: helpers with and without nack support, in both orders
+	for _, vers := range [][]uint8{{5, 3}, {3, 5}, {5, 3, 5}, {3, 5, 3}, {5, 5, 3}, {3, 3, 5}} {
+		for _, sc := range []int{0, 3} {
+			for _, tc := range []string{"disabled", "refused"} {
+				for _, newH := range []string{"silent", "nack", "ack@i-"} {
+					for _, oldH := range []string{"silent", "ack@pt+"} {
+						hs := make([]string, len(vers))
+						for i, v := range vers {
+							if v >= 4 {
+								hs[i] = newH
+							} else {
+								hs[i] = oldH
+							}
+						}
+						k := 3
+						if len(vers) == 2 {
+							k = 2
+						}
+						run(c19Case{Indirect: k, HelperPMax: 5, Score: sc, Direct: "none", Helpers: hs, TCP: tc, HelperVers: vers})
+					}
+				}
+			}
+		}
+	}
 	// the transport refuses the direct ping (an environment answer)
 	for _, se := range []string{"local", "remote"} {
 		for _, sc := range []int{0, 3, 7} {
@@ -658,6 +706,8 @@ func TestC19(t *testing.T) {
 		}
 		// the relay's own transport refuses the ping to the target: nothing can come back
 		relays = append(relays, relayCell{nk, "never", "local"}, relayCell{nk, "never", "remote"})
+		// ... and an ack carrying the relay's fresh number arrives all the same (a guessable counter)
+		relays = append(relays, relayCell{nk, "ack@1", "local"}, relayCell{nk, "twice", "remote"})
 	}
 	for _, rc := range relays {
 		{
